@@ -59,6 +59,7 @@ package util
 //@ func ReadVarIntReturnN
 //@   props C03
 //@   requires rwf(r)
+//@   modifies r.@rpos
 //@   loop 1: unroll 6
 //@   loop 2: unroll 6
 //@   ensures [truncated-or-overlong-is-an-error] (err == nil) == old(vcomplete(r))
